@@ -226,18 +226,24 @@ PROPS = {
                 technique="postconditions of obtain_latters/obtain_formers (modular arithmetic VCs) + k-mer shift lemmas + bounded exhaustive small k"),
     "C14": dict(title="The three graph representations are interchangeable", level="other", bounded=["C14"], design="8/C14",
                 proof=["dsw.graphized.obtain_vertices", "dsw.graphized.accessor_to_latter_map", "dsw.graphized.latter_map_to_accessor#plain",
-                       "harness.c14_roundtrip_latter_map", "lemma.ipow_mono"],
+                       "harness.c14_roundtrip_latter_map", "dsw.graphized.accessor_to_adjacency_matrix", "dsw.graphized.adjacency_matrix_to_accessor",
+                       "harness.c14_roundtrip_matrix", "dsw.graphized.obtain_latters", "lemma.ipow_mono"],
                 explanation="PROVED for every arc subset (any is_accessor matrix, not only vertex-induced ones) of every order: accessor_to_latter_map returns a "
                             "dict whose keys are exactly the vertices with an arc, each mapped to the list of its live successors in A<C<G<T order, "
                             "inserted in ascending key order; latter_map_to_accessor (no threshold) of a map that describes an accessor acc0 (ghost) "
                             "returns exactly acc0 (whole-matrix postcondition: every row, so a conversion that corrupts an untouched row cannot "
                             "verify); hence accessor -> latter map -> accessor is the identity (client harness); obtain_vertices returns exactly the "
-                            "vertices with arcs in ascending order.  BOUNDED (never counted as proved): the adjacency-matrix conversions (set-iteration "
-                            "order, N x N fancy stores), the ValueError on illegal matrices, and the depth-d leaf queries.",
-                demoted=["adjacency-matrix conversions and their round trip - bounded B2 (exhaustive order-1 arc subsets in the thorough tier)",
-                         "illegal-matrix rejection - bounded B2", "leaf queries (multiset of end points of d-step walks) - bounded B2"],
-                claim="Mixed: latter-map conversions, their round trip and the vertex listing deductive; matrix conversions and leaf queries bounded.",
-                note="Trusted: numpy where / sum(axis=1) / astype / boolean-mask indexing / ones contracts; dict semantics (insertion order) as modelled.",
+                            "vertices with arcs in ascending order.  PROVED: accessor_to_adjacency_matrix returns the N x N matrix with a 1 exactly at "
+                            "the arcs (every row, every column) and raises MemoryError exactly when N >= 4^maximum_length; adjacency_matrix_to_accessor, "
+                            "for ANY square matrix of order k <= 31, holds in column j the j-th shift successor when the matrix has a 1 there and -1 "
+                            "otherwise, and raises ValueError exactly when some 1 of the matrix is not a de Bruijn shift; hence accessor -> matrix -> "
+                            "accessor is the identity (client harness).  BOUNDED (never counted as proved): the depth-d leaf queries.",
+                demoted=["leaf queries (multiset of end points of d-step walks, either representation) - bounded B2"],
+                claim="Mixed: all conversions (latter map, adjacency matrix), both round trips, illegal-matrix rejection and the vertex listing deductive; leaf "
+                      "queries bounded.",
+                note="Trusted: numpy where / sum(axis=1) / astype / boolean-mask indexing / ones / min / max contracts, writes through a row view; dict semantics "
+                     "(insertion order) as modelled; CPython's iteration order of a set of four consecutive small ints (conformance-checked); "
+                     "int(log(4**k)/log(4)) == k for k <= 31 (conformance-checked).",
                 technique="whole-view postconditions of the conversions + bounded exhaustive order-1 arc subsets"),
     "C15": dict(title="String big-number arithmetic equals integer arithmetic", level="proof", bounded=["C15"], design="8/C15",
                 proof=["dsw.operation.calculus_addition", "dsw.operation.calculus_subtraction", "dsw.operation.calculus_multiplication",
